@@ -1386,10 +1386,17 @@ impl World {
                 let mut kids: Vec<String> =
                     cell.get_children().iter().map(|c| self.sh.idx_of(c.get_id())).collect();
                 kids.sort();
+                // `x`: the child set was closed by a `terminate()` (hook `verif_children_open`)
                 st.push(format!(
                     "{a}:{}/{sup}/{}",
                     status_str(cell.get_status()),
-                    if kids.is_empty() { "-".to_string() } else { kids.join(",") }
+                    if !cell.verif_children_open() {
+                        "x".to_string()
+                    } else if kids.is_empty() {
+                        "-".to_string()
+                    } else {
+                        kids.join(",")
+                    }
                 ));
             }
         }
